@@ -18,6 +18,8 @@ pub enum Case {
     /// independent decoder (Lean `Spec.decodeFile`) on bytes the real writer produced; the
     /// implementation side prints what was handed to the writer
     SpecDecode { shp: Vec<u8>, expected: String },
+    /// C08: pairs through the complete Writer (real dbase)
+    DbfHist { base: String, ops: Vec<crate::extra::PairOp> },
     Raw(String),
 }
 
@@ -59,6 +61,7 @@ pub fn show_case(c: &Case) -> String {
             s
         }
         Case::SpecDecode { shp, .. } => format!("specdecode {}", hex(shp)),
+        Case::DbfHist { base, ops } => format!("dbfhist {} {} {}", base, ops.len(), ops.iter().map(|o| o.tok()).collect::<Vec<_>>().join(" ")).trim_end().to_string(),
         Case::Raw(s) => s.clone(),
     }
 }
@@ -142,6 +145,15 @@ pub fn parse_case(line: &str) -> Option<Case> {
             }
             Case::Rhist { target, shp, shx, ops }
         }
+        "dbfhist" => {
+            let base = t.next()?.to_string();
+            let n = t.nat()?;
+            let mut ops = vec![];
+            for _ in 0..n {
+                ops.push(crate::extra::PairOp::parse(t.next()?)?);
+            }
+            Case::DbfHist { base, ops }
+        }
         "code" => Case::Code(t.int()? as i32),
         "ring" => {
             let d = t.dim()?;
@@ -170,6 +182,7 @@ pub fn run_case(c: &Case) -> String {
         Case::Code(c) => v_code(*c),
         Case::Ring(d, r, ps) => v_ring(*d, *r, ps),
         Case::SpecDecode { expected, .. } => expected.clone(),
+        Case::DbfHist { base, ops } => crate::extra::v_dbfhist(base, ops),
         Case::Raw(_) => "unsupported".into(),
     }
 }
